@@ -906,6 +906,6 @@ func init() {
 	AddOp("c13_months", (*Sim).opC13Months)
 	AddOp("c13_to_expiry", (*Sim).opC13ToExpiry)
 	simrt.Register("C13", &simrt.PropSpec{Fn: runC13, NonTrivial: c13NonTrivial,
-		Rule: "tape-generated multi-actor histories over months of slow blocks (1..6 h apart, never one giant gap): governance plan add / new version (price up/down, CU limits, projects limit, annual discount, in-place rewrite) / delete proposals at arbitrary blocks, interleaved with subscription buy / extend / upgrade / advance purchase (and its replacement) / auto-renew toggles onto other or modified plans / poor buyers whose renewal fails, relay payments and staking; after every block and every accepted transaction FindPlan(PlanIndex, PlanBlock) must succeed for every live subscription entry (current and pending-next-epoch) and its advance purchase; no transaction or pairing query may fail with a referenced-plan-not-found error; a paid advance purchase must take over at expiry; a Begin/EndBlock panic is a violation. Non-trivial = >=10 accepted operations, >=1 accepted plan modification/deletion and >=1 observation of a live subscription that references a plan version which is no longer the latest",
+		Rule: "tape-generated multi-actor histories over months of slow blocks (1..2/3/6 h apart depending on the run, never one giant gap; a month spans one to several fixation stale periods): governance plan add / new version (price up/down, CU limits, projects limit, annual discount, in-place rewrite) / delete proposals at arbitrary blocks, interleaved with subscription buy / extend / upgrade / advance purchase (and its replacement) / auto-renew toggles onto other or modified plans / poor buyers whose renewal fails, relay payments and staking; after every block and every accepted transaction FindPlan(PlanIndex, PlanBlock) must succeed for every live subscription entry (current and pending-next-epoch) and its advance purchase; no transaction or pairing query may fail with a referenced-plan-not-found error; a paid advance purchase must take over at expiry; a Begin/EndBlock panic is a violation. governance prefers plans that live subscriptions use or will renew onto. Non-trivial = >=10 accepted operations, >=1 accepted plan modification/deletion and >=1 observation of a live subscription that references a plan version which is no longer the latest",
 		Real: chainReal, Stubbed: chainStub, Assume: append([]string{"governance proposals are executed by calling the plans proposal handler directly inside an atomic transaction (no voting period)", "consecutive blocks are at most 12 h apart"}, chainAssume...)})
 }
